@@ -911,6 +911,7 @@ def supervise(cases, rec, tier, t_start, confirm=None, final=True):
     """confirm: list collecting cases to re-execute in a fresh child (None: report whatever is seen)"""
     if confirm is None and final:
         confirm = []
+    ext = ExtendedPasses(rec, tier) if final else None
     # the child's caps are CPU time; the parent's kill limits are wall-clock, generous (x4) to tolerate a loaded machine
     hard1 = 4 * (WALL_T1[tier] + WALL_HARD_EXTRA)
     hard2 = 4 * (WALL_T2[tier] + WALL_HARD_EXTRA)    # upper bound; the child enforces the class-specific T2
@@ -943,6 +944,8 @@ def supervise(cases, rec, tier, t_start, confirm=None, final=True):
         eof = False
         while not eof:
             rl, _, _ = select.select([rfd], [], [], 1.0)
+            if ext is not None and (ext.queue or ext.running):
+                ext.pump()
             if rl:
                 data = os.read(rfd, 1 << 16)
                 if not data:
@@ -978,8 +981,8 @@ def supervise(cases, rec, tier, t_start, confirm=None, final=True):
                             finished = True
                     elif 'i' in msg:
                         if confirm is not None and msg['out'] == 'budget':
-                            confirm.append((cases[msg['i']], msg))
                             rec.event('calls over the budget B (candidates for the extended pass)')
+                            ext.add(cases[msg['i']], msg)
                         elif confirm is not None and msg.get('tainted') and msg['out'] in ('undocumented', 'loopbound'):
                             confirm.append((cases[msg['i']], None))
                             rec.event('violation candidates seen in a tainted child, re-executed in a fresh one')
@@ -1017,37 +1020,151 @@ def supervise(cases, rec, tier, t_start, confirm=None, final=True):
     for k, v in anchors.items():
         rec.anchor(k, v)
     if final:
-        known = None
         for c, first in confirm:
             # fresh child per case (never tainted when it reports), no shard deadline for confirmations
             if first is None:
                 supervise([c], rec, tier, time.time(), confirm=None, final=False)
-                continue
-            if known is None:
-                try:
-                    from vf.core import load_known
-                    known = set(load_known(PROP))
-                except Exception:
-                    known = set()
-            name, style, p, specs = c[:4]
-            B = first.get('budget', BUDGET['quick'])
-            key = 'C24/budget/%s/%s' % (name, regime(specs, p))
-            t3 = T3_KNOWN[tier] if key in known else T3[tier]
-            rate = first.get('steps', 0) / max(first.get('wall') or 0.0, 1e-3)
-            projected = EXT * B / max(rate, 1.0)
-            if projected > 1.25 * t3 and EXT * (first.get('wall') or 0.0) > t3:
-                cdesc = {'function': name, 'args': [show_spec(x) for x in specs], 'specs': specs, 'prec': p, 'style': style,
-                         'first_pass_steps': first.get('steps'), 'first_pass_cpu_s': first.get('wall'), 'stack': first.get('stack')}
-                rec.case((name, tuple(specs), p), True, cls='%s/over-budget:extended-pass-not-reachable' % K.ENTRIES[name][0])
-                rec.cls('fn/' + name)
-                rec.undecided('over the budget B; the extended budget %d*B is not reachable within the CPU cap (%d s) at the observed step rate%s'
-                              % (EXT, t3, ' [cell listed as known finding: short cap]' if key in known else ''), cdesc)
-                continue
-            rec.event('extended passes run (budget %d*B)' % EXT)
-            t_ext = EXT * max(first.get('wall') or 0.0, 0.5)
-            supervise([(name, style, p, specs, {'budget': EXT * B, 't2': min(t_ext, t3), 'time_scaled': t_ext <= t3,
-                                                'first': first.get('steps'), 'first_cpu': first.get('wall')})],
-                      rec, tier, time.time(), confirm=None, final=False)
+        ext.finish()
+
+
+class ExtendedPasses(object):
+    """Extended passes (25 times the allowance) for the calls that went over B.  Each runs in a fresh interpreter
+    started as soon as the candidate is seen, next to the shard's own child (at most 2 at a time), so the rare
+    long pass overlaps with the rest of the shard instead of adding to its wall time."""
+
+    def __init__(self, rec, tier):
+        self.rec, self.tier = rec, tier
+        self.known = None
+        self.running = []
+        self.queue = []
+
+    def add(self, c, first):
+        rec, tier = self.rec, self.tier
+        if self.known is None:
+            try:
+                from vf.core import load_known
+                self.known = set(load_known(PROP))
+            except Exception:
+                self.known = set()
+        name, style, p, specs = c[:4]
+        B = first.get('budget', BUDGET['quick'])
+        key = 'C24/budget/%s/%s' % (name, regime(specs, p))
+        t3 = T3_KNOWN[tier] if key in self.known else T3[tier]
+        rate = first.get('steps', 0) / max(first.get('wall') or 0.0, 1e-3)
+        projected = EXT * B / max(rate, 1.0)
+        if projected > 1.25 * t3 and EXT * (first.get('wall') or 0.0) > t3:
+            cdesc = {'function': name, 'args': [show_spec(x) for x in specs], 'specs': specs, 'prec': p, 'style': style,
+                     'first_pass_steps': first.get('steps'), 'first_pass_cpu_s': first.get('wall'), 'stack': first.get('stack')}
+            rec.case((name, tuple(specs), p), True, cls='%s/over-budget:extended-pass-not-reachable' % K.ENTRIES[name][0])
+            rec.cls('fn/' + name)
+            rec.undecided('over the budget B; the extended budget %d*B is not reachable within the CPU cap (%d s) at the observed step rate%s'
+                          % (EXT, t3, ' [cell listed as known finding: short cap]' if key in self.known else ''), cdesc)
+            return
+        t_ext = EXT * max(first.get('wall') or 0.0, 0.5)
+        job = (name, style, p, specs, {'budget': EXT * B, 't2': min(t_ext, t3), 'time_scaled': t_ext <= t3,
+                                       'first': first.get('steps'), 'first_cpu': first.get('wall')})
+        self.queue.append(job)
+        self.pump()
+
+    def pump(self):
+        import subprocess, tempfile
+        self.running = [j for j in self.running if not self.reap(j, block=False)]
+        while self.queue and len(self.running) < 2:
+            job = self.queue.pop(0)
+            fd, inpath = tempfile.mkstemp(prefix='vf-C24-ext-', suffix='.in.json')
+            os.write(fd, json.dumps({'tier': self.tier, 'name': job[0], 'prec': job[2], 'specs': job[3],
+                                     'budget': job[4]['budget'], 't2': job[4]['t2']}).encode())
+            os.close(fd)
+            outpath = inpath[:-8] + '.out.json'
+            env = dict(os.environ)
+            root = os.path.dirname(os.path.dirname(os.path.dirname(os.path.abspath(__file__))))
+            env['PYTHONPATH'] = root + (os.pathsep + env['PYTHONPATH'] if env.get('PYTHONPATH') else '')
+            m = sys.modules.get('mpmath')
+            if m is not None:           # the tree this worker is checking
+                env['VERIF_REPO'] = os.path.dirname(os.path.dirname(os.path.abspath(m.__file__)))
+            env.setdefault('MPMATH_NOGMPY', '1')
+            proc = subprocess.Popen([sys.executable, '-c', 'import sys; from vf.props import C24; C24.ext_main(sys.argv[1], sys.argv[2])',
+                                     inpath, outpath], env=env, stdout=subprocess.DEVNULL, stderr=subprocess.DEVNULL)
+            self.rec.event('extended passes run (budget %d*B)' % EXT)
+            self.running.append({'job': job, 'proc': proc, 'in': inpath, 'out': outpath, 't0': time.time()})
+
+    def reap(self, j, block):
+        """-> True when the job is finished and its verdict recorded"""
+        import subprocess
+        limit = 4 * (j['job'][4]['t2'] + WALL_HARD_EXTRA) + 60
+        try:
+            if block:
+                j['proc'].wait(timeout=max(1.0, limit - (time.time() - j['t0'])))
+            elif j['proc'].poll() is None:
+                if time.time() - j['t0'] <= limit:
+                    return False
+                raise subprocess.TimeoutExpired('ext', limit)
+        except subprocess.TimeoutExpired:
+            j['proc'].kill()
+            j['proc'].wait()
+        res = None
+        try:
+            res = json.load(open(j['out']))
+        except Exception:
+            res = None
+        for pth in (j['in'], j['out']):
+            try:
+                os.unlink(pth)
+            except OSError:
+                pass
+        name, style, p, specs, opt = j['job']
+        if res is None:
+            cdesc = {'function': name, 'args': [show_spec(x) for x in specs], 'specs': specs, 'prec': p, 'exit_status': j['proc'].returncode}
+            self.rec.case((name, tuple(specs), p), True, cls='%s/extended-pass-died' % K.ENTRIES[name][0])
+            self.rec.cls('fn/' + name)
+            self.rec.undecided('extended pass: process killed or died without a result', cdesc)
+        else:
+            verdict(self.rec, j['job'], res, self.tier)
+        return True
+
+    def finish(self):
+        while self.running or self.queue:
+            self.pump()
+            if self.running:
+                j = self.running.pop(0)
+                self.reap(j, block=True)
+
+
+def ext_main(inpath, outpath):
+    """entry point of the fresh interpreter that executes one extended pass"""
+    repo = os.environ.get('VERIF_REPO', '/repo')
+    sys.path[:] = [q for q in sys.path if os.path.abspath(q or '.') != repo]
+    sys.path.insert(0, repo)
+    try:
+        sys.set_int_max_str_digits(0)
+    except AttributeError:
+        pass
+    d = json.load(open(inpath))
+
+    def spec(x):
+        if x[0] == 'I':
+            return K.I(x[1])
+        return (x[0],) + tuple(tuple(int(v) for v in raw) for raw in x[1:])
+    specs = [spec(x) for x in d['specs']]
+    import mpmath
+    assert os.path.abspath(mpmath.__file__).startswith(os.path.abspath(repo) + os.sep), mpmath.__file__
+    from vf.instrument import StepBudget
+    try:
+        import resource
+        resource.setrlimit(resource.RLIMIT_AS, (MEM_LIMIT, MEM_LIMIT))
+    except Exception:
+        pass
+    global LOOPMON
+    sb = StepBudget(d['budget'])
+    sb.install()
+    watch = Watch(sb, d['tier'], 1e9)
+    signal.signal(signal.SIGPROF, watch)
+    LOOPMON = LoopMonitor().install()
+    res = run_one(mpmath.mp, sb, watch, d['name'], specs, d['prec'], d['budget'], d['t2'], full=True)
+    res['budget'] = d['budget']
+    res['extended_pass'] = True
+    with open(outpath, 'w') as f:
+        json.dump(res, f)
 
 
 def shards(tier, seed):
